@@ -158,7 +158,7 @@ class LogFormatter(logging.Formatter):
                 # cannot be the start of a JSON object, don't pay for joining and parsing
                 continue
             try:
-                candidate = json.loads("|".join(parts[index:]).encode("UTF8"))
+                candidate = json.loads("|".join(parts[index:]).encode("UTF8", "surrogatepass"))
             except ValueError:
                 continue
             if isinstance(candidate, dict):
